@@ -10,6 +10,11 @@ CHECKS = {
          "All 2^8 (quick) / 2^13 (thorough) subsets of a universe of resource scopes chosen one per branch of scope.go (known/unknown actions incl. one sorting between pull and push, catalog sentinel, empty repository name, opaque word, unknown type, registry:catalog:pull), built by every construction route (NewScope sorted/permuted/duplicated, ParseScope of plain, permuted, comma-joined text, Union results, zero value, unlimited) and all ordered pairs for Union/Contains/Equal; Iter order, early stop, Len, Holds for every universe element, print/parse round trip, receiver text preservation. Exhaustive over the universe.",
          "Strings outside the universe are not explored; the model is a bitmask over the universe.",
          "DESIGN.md 3 C09"),
+ "C12": ("exploration", "E4-enum",
+         "bounded exhaustive enumeration of policies x call sequences on the real wrappers with a recording backend and a directly-called twin",
+         "AccessChecker: all 512 allow/deny assignments to the 9 (repository, access kind) slots x every sequence of <= 2 (thorough <= 3) of the 21 invocations (18 methods, three mount shapes incl. from==to, writer use after PushBlobChunked*) on ONE wrapper instance; Select: all allow subsets; listings: all backend subsets x allowed subsets of 5 names x start points x stop-after-k x backend-error-after-j. Oracle: rejected => zero backend calls and one of the policy's own errors (Select: NAME_UNKNOWN / DENIED for write); allowed => backend call log and result identical to calling a twin backend directly; no consumer calls after stop/error. The space is finite and fully enumerated.",
+         "Access kind per method taken from the AccessKind documentation; listing items judged only where read and list decisions agree.",
+         "DESIGN.md 3 C12"),
  "C17": ("exploration", "E4-enum",
          "bounded exhaustive enumeration of all strings up to length 6 over an 11-symbol alphabet plus grammar-directed component products, against hand-written recognisers",
          "Every string of length <= 5 (quick) / <= 6 (thorough) over {a,A,0,.,:,/,@,-,_,[,]} and the product of 17 hosts x 22 repositories x 12 tags x 13 digests (valid and invalid, boundary lengths 128/129, 255/256): no panic from any exported ociref/ociregistry validity function or parser; parse ok => print equals input and each part valid and within its limit; Parse agrees with ParseRelative; every independently valid partition with a host is recovered; predicates equal the independent recogniser on every string incl. empty; routing agreement through ociserver with a recording backend (accepted as repository/tag/digest iff the predicate holds; backend never sees an invalid argument).",
